@@ -155,6 +155,9 @@ pub fn check_in(ctx: &Ctx, case: &CliCase) -> Report {
         Err(e) => return Report::inconclusive(e),
     }
     let outf = dir.file("extract.fa");
+    // the -o file already exists with other content (a re-run, or another extraction into the same
+    // name): the result must still be exactly the requested records
+    let _ = std::fs::write(&outf, b">left-over-record\nACGTACGT\n");
     let mut go = ga.clone();
     go.push("-o".into());
     go.push(outf.to_string_lossy().to_string());
@@ -179,6 +182,7 @@ pub fn check_in(ctx: &Ctx, case: &CliCase) -> Report {
         let mut gp: Vec<String> = vec!["getset".into(), a.clone(), "-p".into(), prefix.to_string()];
         let pf = dir.file("prefix.fa");
         if to_file {
+            let _ = std::fs::write(&pf, b">left-over-record\nACGTACGT\n");
             gp.push("-o".into());
             gp.push(pf.to_string_lossy().to_string());
         }
@@ -279,7 +283,7 @@ pub fn replay(ctx: &Ctx, _stage: &str, case: &Value) -> Report {
 pub const INFO: PropInfo = PropInfo {
     id: "C17",
     level: "exploration",
-    rule: "cases = a small generated collection created by `ragc create` with generated flags (-k -s -m -l -t --queue-capacity --fallback-frac from the parameter generator, -v 0..2, -c 1..19, and the unsupported --batch / --adaptive / --concatenated), then: request lists of 1..5 existing sample names with repeats and a prefix of a random sample name (1..n characters, so 1..n samples match), each on stdout and with -o file; 18 failure requests (unknown sample alone / first / last / with -o, prefix without match, neither sample nor prefix, missing / truncated / garbage / directory archive for getset and listset, listctg / ctglen / getrange on unknown names, create with an unreadable input, create into a missing directory). Oracles: create exit 0 => archive exists and listset prints every input sample in order; unsupported flags => exit != 0 or such an archive; multi-sample and prefix output == concatenation of the single-sample extractions in request (resp. archive) order, byte for byte; every failure request exits non-zero. Non-trivial = request with >= 2 distinct samples, or a create with a non-default / unsupported flag; distinct = distinct case.",
+    rule: "cases = a small generated collection created by `ragc create` with generated flags (-k -s -m -l -t --queue-capacity --fallback-frac from the parameter generator, -v 0..2, -c 1..19, and the unsupported --batch / --adaptive / --concatenated), then: request lists of 1..5 existing sample names with repeats and a prefix of a random sample name (1..n characters, so 1..n samples match), each on stdout and with -o file (the -o file exists beforehand with other content); 18 failure requests (unknown sample alone / first / last / with -o, prefix without match, neither sample nor prefix, missing / truncated / garbage / directory archive for getset and listset, listctg / ctglen / getrange on unknown names, create with an unreadable input, create into a missing directory). Oracles: create exit 0 => archive exists and listset prints every input sample in order; unsupported flags => exit != 0 or such an archive; multi-sample and prefix output == concatenation of the single-sample extractions in request (resp. archive) order, byte for byte; every failure request exits non-zero. Non-trivial = request with >= 2 distinct samples, or a create with a non-default / unsupported flag; distinct = distinct case.",
     assumptions: &["single-sample `getset` is the reference for composition (its content is C01's subject)"],
     needs_cli: true,
     needs_checked: false,
